@@ -1,4 +1,5 @@
 //! module name -> binder
+use crate::abi::AbiBinder;
 use crate::common::Obs;
 use crate::gas::GasBinder;
 use crate::gateway::GatewayBinder;
@@ -13,6 +14,7 @@ pub enum B {
     Gas(GasBinder),
     Operators(OperatorsBinder),
     Upgrade(UpgradeBinder),
+    Abi(AbiBinder),
 }
 
 impl B {
@@ -23,6 +25,7 @@ impl B {
             B::Gas(b) => b.exec(act),
             B::Operators(b) => b.exec(act),
             B::Upgrade(b) => b.exec(act),
+            B::Abi(b) => b.exec(act),
         }
     }
     pub fn project(&mut self) -> J {
@@ -32,6 +35,7 @@ impl B {
             B::Gas(b) => b.project(),
             B::Operators(b) => b.project(),
             B::Upgrade(b) => b.project(),
+            B::Abi(b) => b.project(),
         }
     }
 }
@@ -43,6 +47,7 @@ pub fn make_binder(module: &str, inst: &J, init: &J) -> B {
         "GasService" => B::Gas(GasBinder::new(inst, init)),
         "Operators" => B::Operators(OperatorsBinder::new(inst, init)),
         "Upgrade" => B::Upgrade(UpgradeBinder::new(inst, init)),
+        "Abi" => B::Abi(AbiBinder::new(inst, init)),
         m => panic!("unknown module {m}"),
     }
 }
